@@ -5,6 +5,7 @@ pub mod c04;
 pub mod c05;
 pub mod c06;
 pub mod c07;
+pub mod c07w;
 pub mod c08;
 pub mod c09;
 pub mod c10;
